@@ -9,7 +9,8 @@ import struct
 
 from ..cfg import cfg_of
 from ..model import AnalysisError, call_name, calls_in, dotted, norm
-from .. import bits, rules
+from .. import bits, normal, rules
+from .. import conds as cnd
 from . import _block
 from ._dispatch import check_dispatcher
 from .c09 import check_bytequeue_wait
@@ -177,7 +178,7 @@ def check_framing(ctx):
     f = repo.method("HsmsProtocol", "_process_received_data", inherited=False)
     ctx.touch(f)
     q = f.qualname
-    fn = f.node
+    fn = normal.normalised(ctx, f)
     cfg = cfg_of(fn)
     K = struct.calcsize(">" + repo.const("HsmsBlock", "length_format"))
     unp = [c for c in calls_in(fn) if call_name(c) in ("struct.unpack", "struct.unpack_from")]
@@ -193,6 +194,9 @@ def check_framing(ctx):
             a = _affine(n.ast.value, env)
             if a is not None:
                 env[n.ast.targets[0].id] = a
+        elif isinstance(n.ast, ast.Assign) and len(n.ast.targets) == 1 and isinstance(n.ast.targets[0], (ast.Tuple, ast.List)) and len(n.ast.targets[0].elts) == 1 and isinstance(n.ast.targets[0].elts[0], ast.Name) \
+                and isinstance(n.ast.value, ast.Call) and call_name(n.ast.value) in ("struct.unpack", "struct.unpack_from"):
+            env[n.ast.targets[0].elts[0].id] = (True, 0)  # (length,) = struct.unpack(...)
     waits = [(n, c) for n in cfg.real_nodes() for c in n.calls if call_name(c) in ("self._receive_buffer.wait_for", "self._receive_buffer.peek", "self._receive_buffer.pop")]
     peeks, consumes = [], []
     for n, c in waits:
@@ -224,13 +228,14 @@ def check_framing(ctx):
     ctx.require(len(heads) == 1, f"{q}: framing loop not found")
     H = heads[0]
     t = H.ast
-    guard_ok = isinstance(t, ast.Compare) and len(t.ops) == 1 and norm(t.left) == "len(self._receive_buffer)" and isinstance(t.comparators[0], ast.Constant) and (
-        (isinstance(t.ops[0], ast.Gt) and t.comparators[0].value == K - 1) or (isinstance(t.ops[0], ast.GtE) and t.comparators[0].value == K))
+    guard_ok = cnd.canon(t, True) == {(f"len(self._receive_buffer) < {K}", False)}
     ctx.ob("C04.P1", q, guard_ok, f"the loop runs while at least {K} bytes (a full prefix) are buffered" if guard_ok else f"loop guard `{norm(t)}` is not `at least {K} bytes buffered`: a partial prefix is unpacked or a buffered frame is left behind", key="loop-guard", where=f.where)
     pre = [n for n in cfg.nodes if n.kind == "test" and n.label == "if" and norm(n.ast).startswith("len(self._receive_buffer)") and cfg.dominates(n, H)]
     for n in pre:
         tt = n.ast
-        ok = isinstance(tt, ast.Compare) and isinstance(tt.comparators[0], ast.Constant) and ((isinstance(tt.ops[0], ast.Lt) and tt.comparators[0].value <= K) or (isinstance(tt.ops[0], ast.LtE) and tt.comparators[0].value < K))
+        returns_on = "true" if any(isinstance(x.ast, ast.Return) and cfg.dominates(rules.branch_marker(n, "true"), x) for x in cfg.real_nodes()) else "false"
+        atoms = cnd.canon(tt, returns_on == "true")
+        ok = len(atoms) == 1 and all(pol and t.startswith("len(self._receive_buffer) < ") and t.rsplit(" ", 1)[1].isdigit() and int(t.rsplit(" ", 1)[1]) <= K for t, pol in atoms)
         ctx.ob("C04.P1", q, ok, "the early return fires only when no full prefix is buffered" if ok else f"early return `{norm(tt)}` can skip a buffered frame", key="early-return", where=f.where)
     # one queue_block per iteration, of the decoded block
     qb = [n for n in cfg.real_nodes() if any(c == "self._thread.queue_block" for c in n.call_names())]
@@ -281,17 +286,30 @@ def check_byte_queue(ctx):
     ok = len(rets) == 1 and norm(rets[0].value) == f"self._buffer[:{p}]" and not removes
     ctx.ob("C04.W1", peek.qualname, ok, "peek returns the first n bytes without removing them" if ok else "ByteQueue.peek does not return the leading bytes unconsumed", where=peek.where)
     wf = repo.method("ByteQueue", "wait_for", inherited=False)
-    ps, pp = wf.node.args.args[1].arg, wf.node.args.args[2].arg
-    cfg = cfg_of(wf.node)
+    ctx.touch(wf)
+    wfn = normal.normalised(ctx, wf, keep={"peek", "pop"})
+    ps, pp = wfn.args.args[1].arg, wfn.args.args[2].arg
+    cfg = cfg_of(wfn)
     rets = [n for n in cfg.real_nodes() if isinstance(n.ast, ast.Return)]
-    by = {norm(r.ast.value): [(norm(t), v) for t, v in cfg.dominating_conditions(r) if norm(t) == pp] for r in rets}
-    ok = by.get(f"self.peek({ps})") == [(pp, True)] and f"self.pop({ps})" in by and (pp, True) not in by.get(f"self.pop({ps})", [])
-    ctx.ob("C04.W1", wf.qualname, ok, "wait_for(size, peek) peeks when asked to and pops otherwise, with the same size" if ok else f"wait_for returns {by}", key="peek-or-pop", where=wf.where)
+    by = {}
+    for r in rets:
+        by.setdefault(norm(r.ast.value), []).append(r)
+    ok = set(by) == {f"self.peek({ps})", f"self.pop({ps})"} and all(cnd.holds(cfg, r, pp) for r in by[f"self.peek({ps})"]) and all(cnd.holds(cfg, r, f"not {pp}") for r in by[f"self.pop({ps})"])
+    ctx.ob("C04.W1", wf.qualname, ok, "wait_for(size, peek) peeks when asked to and pops otherwise, with the same size" if ok else f"wait_for returns {dict((k, [cnd.describe(cfg, r) for r in v]) for k, v in by.items())}", key="peek-or-pop", where=wf.where)
     # predicate compares the buffer length with the requested size
-    pred = [s for s in ast.walk(wf.node) if isinstance(s, ast.FunctionDef) and s is not wf.node]
-    ok = any(any(isinstance(r, ast.Return) and norm(r.value) in (f"len(self._buffer) >= {ps}", f"{ps} <= len(self._buffer)") for r in ast.walk(p_)) for p_ in pred)
-    if not pred:
-        ok = any(isinstance(s, ast.While) and norm(s.test) in (f"len(self._buffer) < {ps}",) for s in ast.walk(wf.node))
+    want = {(f"len(self._buffer) < {ps}", False)}
+    preds = []
+    nested = {d.name: d for d in ast.walk(wfn) if isinstance(d, ast.FunctionDef) and d is not wfn}
+    for c in calls_in(wfn, nested=False):
+        if (call_name(c) or "").endswith("_buffer_lock.wait_for") and c.args:
+            a0 = c.args[0]
+            if isinstance(a0, ast.Lambda):
+                preds.append(a0.body)
+            elif isinstance(a0, ast.Name) and a0.id in nested:
+                preds.extend(r.value for r in ast.walk(nested[a0.id]) if isinstance(r, ast.Return) and r.value is not None)
+    ok = bool(preds) and all(cnd.canon(x, True) == want for x in preds)
+    if not preds:
+        ok = any(isinstance(x, ast.While) and cnd.canon(x.test, True) == {(f"len(self._buffer) < {ps}", True)} for x in ast.walk(wfn))
     ctx.ob("C04.W1", wf.qualname, ok, "the wait predicate is `at least size bytes buffered`" if ok else "the wait predicate is not `len(buffer) >= size`: the reader is released with too few bytes", key="predicate", where=wf.where)
     rcv = repo.method("Protocol", "_on_connection_data_received", inherited=False)
     ctx.touch(rcv)
